@@ -6,6 +6,7 @@ use crate::keys::*;
 use crate::common::*;
 use crate::engine::*;
 use crate::loopsim::{ByteLayer, Tape};
+use crate::remapping_loop::verif_hooks::{VerifRealDriver, VNext, VPoll, VDevice};
 use crate::dev_input_rw::{DevInputReader, DevInputWriter};
 use crate::tablet_mode_switch_reader::{TabletModeSwitchReader, TableModeEvent};
 use crate::rng::{Rng, H};
@@ -113,14 +114,14 @@ fn key_record(e: &Event) -> Vec<u8> {
 }
 
 /// Byte layer for hybrid world-B runs.
-pub struct PipeLayer { pub p: Pipes, reader: DevInputReader, treader: TabletModeSwitchReader, writer: DevInputWriter, pub stats: WireStats }
+/// Hybrid byte layer: the shipped RealDriver (hook H3) on pipes — its errno mapping, the real
+/// readers and writer underneath, mio registration and zero-timeout poll.
+pub struct PipeLayer { pub p: Pipes, drv: VerifRealDriver, pub stats: WireStats }
 impl PipeLayer {
   pub fn new() -> PipeLayer {
     let p = Pipes::new();
-    let reader = DevInputReader { fd: p.kbd_r };
-    let treader = TabletModeSwitchReader { fd: p.tab_r };
-    let writer = DevInputWriter::verif_from_fd(p.out_w);
-    PipeLayer { p, reader, treader, writer, stats: WireStats::default() }
+    let drv = VerifRealDriver::from_fds(p.kbd_r, p.out_w, Some(p.tab_r));
+    PipeLayer { p, drv, stats: WireStats::default() }
   }
 }
 impl ByteLayer for PipeLayer {
@@ -140,13 +141,13 @@ impl ByteLayer for PipeLayer {
     let _ = write(self.p.tab_w, &buf);
   }
   fn read_kbd(&mut self) -> Result<Option<Event>, String> {
-    match self.reader.next() { Ok(e) => Ok(Some(e)), Err(nix::Error::Sys(Errno::EAGAIN)) => Ok(None), Err(e) => Err(format!("{}", e)) }
+    match self.drv.next_keyboard() { Ok(VNext::One(e)) => Ok(Some(e)), Ok(VNext::Busy) => Ok(None), Ok(VNext::End) => Err("the real driver reported End on a pipe that is still open".into()), Err(e) => Err(e) }
   }
   fn read_tab(&mut self) -> Result<Option<bool>, String> {
-    match self.treader.next() { Ok(TableModeEvent::On) => Ok(Some(true)), Ok(TableModeEvent::Off) => Ok(Some(false)), Err(nix::Error::Sys(Errno::EAGAIN)) => Ok(None), Err(e) => Err(format!("{}", e)) }
+    match self.drv.next_tablet() { Ok(VNext::One(on)) => Ok(Some(on)), Ok(VNext::Busy) => Ok(None), Ok(VNext::End) => Err("the real driver reported End on a tablet pipe that is still open".into()), Err(e) => Err(e) }
   }
   fn send(&mut self, evs: &Vec<Event>) -> Result<Vec<Event>, String> {
-    self.writer.send(evs).map_err(|e| format!("real writer failed on a pipe: {}", e))?;
+    self.drv.send(evs).map_err(|e| format!("real writer failed on a pipe: {}", e))?;
     self.stats.batches += 1;
     let bytes = drain(self.p.out_r);
     check_wire(&bytes, evs)
@@ -163,12 +164,20 @@ impl ByteLayer for PipeLayer {
         let _ = close(self.p.out_r); self.p.out_r = -1;
       }
       _ => { // EBADF
-        self.writer = DevInputWriter::verif_from_fd(-1);
+        self.drv.replace_uinput_fd(-1);
       }
     }
   }
-  fn raw_send(&mut self, evs: &Vec<Event>) -> Result<(), String> {
-    self.writer.send(evs).map_err(|e| format!("{}", e))
+  fn raw_send(&mut self, evs: &Vec<Event>) -> Result<(), String> { self.drv.send(evs) }
+  fn register(&mut self) -> Result<(), String> { self.drv.register_poll() }
+  fn poll_now(&mut self) -> Result<Option<Vec<VDevice>>, String> {
+    match self.drv.poll_now()? { VPoll::Devices(ds) => Ok(Some(ds)), VPoll::TimedOut => Ok(None), VPoll::Interrupted => Err("the real poll was interrupted".into()) }
+  }
+  fn sabotage_reader(&mut self, tablet: bool) {
+    // The descriptor number must stay allocated (another worker thread could be handed it the
+    // moment it is closed), so the write end is dup2'ed over the read end: a read on a descriptor
+    // that is not open for reading fails with EBADF.
+    if tablet { let _ = nix::unistd::dup2(self.p.tab_w, self.p.tab_r); } else { let _ = nix::unistd::dup2(self.p.kbd_w, self.p.kbd_r); }
   }
 }
 
